@@ -168,47 +168,55 @@ func logicalPod(name string) string {
 	return name
 }
 
-// pattern classifies the period starting at cycle index from: "moved-pod-returns-to-origin" if every evicted pod
-// was re-nominated on another node by the evicting action (a move) and its re-creation was then bound by allocate
-// on the node it had been evicted from; "other" otherwise.
+// pattern classifies the period starting at cycle index from. Every evicted pod is either a plain victim (evicted,
+// not re-nominated by the evicting action) or a moved pod (re-nominated by the evicting action on another node, or on
+// the same node with other GPU devices). If the re-creation of every one of them is bound by allocate on the node it
+// had been evicted from, the pattern is "victims-return-to-origin" (only plain victims; followed by how the queues
+// relate, see queueCause), "moved-pod-returns-to-origin" (only moved pods; ":device-level" if all moves stayed on
+// their node) or "mixed-return-to-origin" (both; followed by the queue cause); "other" otherwise.
 func (l *Lasso) pattern(from int) string {
-	type ev struct{ origin, target string }
-	moved := map[string]ev{}
+	type ev struct {
+		origin, target string
+		moved          bool
+	}
+	evicted := map[string]ev{}
 	returned := map[string]bool{}
-	anyMoved := false
-	n := 0
+	nMoved, nPlain, nCrossNode := 0, 0, 0
 	for c := from; c < len(l.Events); c++ {
 		piped := map[string]string{}
+		pipedGroups := map[string]string{}
 		for i := range l.Events[c] {
 			if e := &l.Events[c][i]; e.Kind == "pipeline" && OK(e) {
 				piped[e.Pod] = e.Node
+				pipedGroups[e.Pod] = strings.Join(e.GPUGroups, ",")
 			}
 		}
 		for i := range l.Events[c] {
 			e := &l.Events[c][i]
-			if !OK(e) {
+			if !OK(e) || e.Kind != "evict" {
 				continue
 			}
 			lp := logicalPod(e.Pod)
-			switch e.Kind {
-			case "evict":
-				n++
-				origin := e.Node
-				if origin == "" { // evicted in the cycle it was bound: origin is that bind's node
-					for j := 0; j < i; j++ {
-						if b := &l.Events[c][j]; b.Kind == "bind" && b.Pod == e.Pod {
-							origin = b.Node
-						}
+			origin := e.Node
+			if origin == "" { // evicted in the cycle it was bound: origin is that bind's node
+				for j := 0; j < i; j++ {
+					if b := &l.Events[c][j]; b.Kind == "bind" && b.Pod == e.Pod {
+						origin = b.Node
 					}
 				}
-				if to, ok := piped[e.Pod]; ok && to != origin {
-					moved[lp] = ev{origin, to}
-					anyMoved = true
-				} else if !ok && origin != "" {
-					moved[lp] = ev{origin, ""} // a plain victim: evicted, not re-nominated
-				} else {
-					return "other"
+			}
+			if origin == "" {
+				return "other"
+			}
+			if to, ok := piped[e.Pod]; ok {
+				evicted[lp] = ev{origin, to, true}
+				nMoved++
+				if to != origin {
+					nCrossNode++
 				}
+			} else {
+				evicted[lp] = ev{origin, "", false} // a plain victim: evicted, not re-nominated
+				nPlain++
 			}
 		}
 	}
@@ -216,25 +224,30 @@ func (l *Lasso) pattern(from int) string {
 	for c := from; c < len(l.Events); c++ {
 		for i := range l.Events[c] {
 			e := &l.Events[c][i]
-			if m, ok := moved[logicalPod(e.Pod)]; ok && OK(e) && e.Kind == "bind" && e.Action == "allocate" && e.Node == m.origin {
+			if m, ok := evicted[logicalPod(e.Pod)]; ok && OK(e) && e.Kind == "bind" && e.Action == "allocate" && e.Node == m.origin {
 				returned[logicalPod(e.Pod)] = true
 			}
 		}
 	}
-	if n == 0 {
+	if nMoved+nPlain == 0 {
 		return "other"
 	}
-	for lp := range moved {
+	for lp := range evicted {
 		if !returned[lp] {
 			return "other"
 		}
 	}
-	if !anyMoved {
+	switch {
+	case nMoved == 0:
 		// victims of reclaim / preempt are re-created and bound by allocate where they were before the pending
 		// workload they were evicted for is placed
 		return "victims-return-to-origin:" + l.queueCause(from)
+	case nPlain == 0 && nCrossNode == 0:
+		return "moved-pod-returns-to-origin:device-level"
+	case nPlain == 0:
+		return "moved-pod-returns-to-origin"
 	}
-	return "moved-pod-returns-to-origin"
+	return "mixed-return-to-origin:" + l.queueCause(from)
 }
 
 // queueCause says how the queues of the victims and of the workloads they were evicted for relate in the period
